@@ -643,7 +643,7 @@ def draw_op(draw, S: GState, P: dict):
         wf = draw(waveform_specs(d, lo_used, 0.0, changeable=(d % cs.get("clock_period", 1) != 0)))
         op = dict(op="add_dmm", dmm=dmm_decl.index(i), wf=wf, style=style)
         if draw(st.booleans()):
-            op["protocol"] = draw(st.sampled_from(PROTOCOLS))
+            op["protocol"] = draw(st.sampled_from(P.get("protocols", PROTOCOLS)))
         return op
     if kind == "fault":
         return draw_fault(draw, S, P)
@@ -685,7 +685,7 @@ def draw_op(draw, S: GState, P: dict):
         if draw(st.integers(0, 2)) == 0:
             op["pps"] = draw(st.sampled_from([0.0, 1.0, math.pi, -2.5]))
         if draw(st.booleans()):
-            op["protocol"] = draw(st.sampled_from(PROTOCOLS))
+            op["protocol"] = draw(st.sampled_from(P.get("protocols", PROTOCOLS)))
         if draw(st.booleans()):
             op["cpd"] = draw(st.booleans())
         return op
@@ -698,7 +698,7 @@ def draw_op(draw, S: GState, P: dict):
                 if draw(st.integers(0, 2)) == 0:
                     op["pps"] = draw(st.sampled_from([0.0, 1.0, math.pi, -2.5]))
                 if draw(st.booleans()):
-                    op["protocol"] = draw(st.sampled_from(PROTOCOLS))
+                    op["protocol"] = draw(st.sampled_from(P.get("protocols", PROTOCOLS)))
                 if draw(st.booleans()):
                     op["cpd"] = draw(st.booleans())
                 return op
@@ -708,7 +708,7 @@ def draw_op(draw, S: GState, P: dict):
             return dict(op="target", ch=i, qubits=_qsel(draw, S, 1, mt or S.nq), style=style)
         op = dict(op="add", ch=i, pulse=draw(pulse_specs(cs, simple=P.get("simple_pulses", False))), style=style)
         if draw(st.integers(0, 2)) > 0:
-            op["protocol"] = draw(st.sampled_from(PROTOCOLS))
+            op["protocol"] = draw(st.sampled_from(P.get("protocols", PROTOCOLS)))
             if op["style"] == "pos" and draw(st.booleans()):
                 op["style"] = "pos3"
         return op
